@@ -14,11 +14,18 @@ Definition mks (id : Z) (urls : list Z) (user : bool) (cr : Z) (credtype : Z) : 
   {| s_id := id; s_urls := map url_of_Z urls; s_user := user; s_cred := cred_of_Z cr;
      s_credtype := credtype |}.
 
-(* key type 0 nil/other, 1 RSA, 2 ECDSA; key identity; x509 identity *)
-Definition mkcert (kt key x509 : Z) : cert :=
-  {| c_ktype := match kt with 1 => KRsa | 2 => KEcdsa | _ => KNone end; c_key := key; c_x509 := x509 |}.
+(* key type 0 nil/other, 1 RSA, 2 ECDSA; key identity; x509 identity; what
+   Expires() returns, in nanoseconds since 0001-01-01 00:00:00 UTC (0 = zero
+   time); shown in whole seconds *)
+Definition mkcert (kt key x509 expires : Z) : cert :=
+  {| c_ktype := match kt with 1 => KRsa | 2 => KEcdsa | _ => KNone end; c_key := key; c_x509 := x509;
+     c_expires := expires |}.
+(* the certificate pion generates itself (x509 identity 100) expires at an
+   instant derived from its own time.Now(): shown as -1, the harness checks
+   separately that it lies in the future *)
 Definition Vcert (c : cert) : V :=
-  VL [VZ (match c_ktype c with KNone => 0 | KRsa => 1 | KEcdsa => 2 end); VZ (c_key c); VZ (c_x509 c)].
+  VL [VZ (match c_ktype c with KNone => 0 | KRsa => 1 | KEcdsa => 2 end); VZ (c_key c); VZ (c_x509 c);
+      VZ (if Z.eqb (c_x509 c) 100 then -1 else Z.div (c_expires c) 1000000000)].
 
 Definition mkc (sv : list server) (pol bun mux : Z) (ident : string) (cs : list cert)
            (pl sem : Z) (dc : bool) : config :=
@@ -55,9 +62,10 @@ Fixpoint run_steps (s : cstate) (l : list istep) : list V :=
       let (s', r) := cstep s CloseConn in VZ 0 :: run_steps s' more
   end.
 
-Definition run (p : config * list istep) : V :=
-  let (c0, steps) := p in
-  match init_configuration c0 with
+(* now: the clock reading handed to initConfiguration *)
+Definition run (p : Z * config * list istep) : V :=
+  let '(now, c0, steps) := p in
+  match init_configuration now c0 with
   | Ok c => VL [VL [VZ 0; Vconfig c];
                 VL (run_steps {| conf := c; has_local_desc := false; is_closed := false |} steps)]
   | Err e => VL [VL [VZ (class_code e)]; VL []]
